@@ -8,7 +8,11 @@ Tie K: random histories (puts with chosen ids incl. re-puts of unstored / purged
        dataset id of the universe and EVERY collection, Butler.exists (full_check on/off, plain ref and a ref carrying
        datastore records), _exists_many, stored, stored_many, get, get_dataset, getDatasetLocations, query_datasets,
        queryDatasets, queryDatasetAssociations, the root listing and the raw dataset / dataset_location(_trash) /
-       file_datastore_records rows are recorded and compared with the Coq model (vm_compute) -- Model/RemovalCheck.v.
+       file_datastore_records rows are recorded and compared with the Coq model (vm_compute) -- Model/RemovalCheck.v
+       (15 fields per step, incl. _exists_many / stored_many over all ids in ONE call and query_datasets over every chain).
+Known findings: known_findings.d/C10.json.  Attribution to K-C10-stale-trash-row is deliberately narrow (see `stale` /
+       `victims` in check_history and design.d/C10.md); the bulk-existence defect is FIXED (245923d) and is reported as an
+       ordinary violation if it returns.
 Oracle (from the property text, independent of the Coq model): `check_history` below.  It never simulates the
        datastore: the truth about "registry knows / datastore knows / artifact present" is read from the raw tables and
        the root listing of the SAME step, and "nothing else changed" compares the per-dataset observation vector with
@@ -255,32 +259,14 @@ def opkind(op):
 def check_history(ctx: Ctx, hist, steps, origin):
     failed = False
     prev = None
+    stale: set[int] = set()
+    victims_prev: set[int] = set()
     victims: set[int] = set()       # datasets hit by the stale-trash-row defect; their later inconsistencies are its consequences
 
     def fail(kind, i, what, extra=None, d=None):
         nonlocal failed
         n0 = len(ctx.oracle_failures)
-        if d is not None and ("_exists_many" in kind or kind == "stored-vs-artifact"):
-            o = steps[i]["obs"]
-            mine = {(r[1], r[2]) for r in o["raw_recs"] if r[0] == d}
-            sharing = sorted({r[0] for r in o["raw_recs"] if r[0] != d and (r[1], r[2]) in mine})
-            if sharing and o["exists"][d][:3] == [int(d in {x[0] for x in o["raw_ds"]}), 1, 1] and o["stored"][d] == 1:
-                # the single-ref interfaces are right, only the bulk ones are wrong, and another id's record names the same artifact
-                kind = "bulk-existence-shared-artifact:" + kind
-                what = f"(records of dataset(s) {sharing} name the same artifact) " + what
-        if d is not None and kind.startswith("bystander-changed:") and i > 0 and \
-                set(kind.split(":", 1)[1].split("+")) <= {"many", "many_fast", "stored_many"}:
-            # only the BULK reports about d changed: if they were wrong before the operation because another id's record named
-            # the same artifact (the known bulk-existence defect) and the single-ref interfaces were right and did not change,
-            # the "change" is that defect going away, not the operation touching a bystander
-            o = steps[i - 1]["obs"]
-            mine = {(r[1], r[2]) for r in o["raw_recs"] if r[0] == d}
-            sharing = sorted({r[0] for r in o["raw_recs"] if r[0] != d and (r[1], r[2]) in mine})
-            if sharing and o["exists"][d][:3] == [int(d in {x[0] for x in o["raw_ds"]}), 1, 1] and o["stored"][d] == 1 \
-                    and steps[i]["obs"]["exists"][d] == o["exists"][d] and steps[i]["obs"]["stored"][d] == 1:
-                kind = "bulk-existence-shared-artifact:" + kind
-                what = f"(before the operation records of dataset(s) {sharing} named the same artifact and the bulk reports were wrong) " + what
-        if d is not None and d in victims:
+        if d is not None and (d in victims or d in victims_prev):
             kind = "stale-trash-row-victim:" + kind
             what = (f"dataset {d} had a stale row in dataset_location_trash while it was stored again and an emptyTrash "
                     f"deleted its records: ") + what
@@ -301,8 +287,15 @@ def check_history(ctx: Ctx, hist, steps, origin):
         colls = {c: k for c, k in obs["colls"]}
         ids_reg = {r[0] for r in obs["raw_ds"]}
         pending = set(obs["raw_trash"])
+        # the stale-trash-row situation (known finding): an id that was PENDING (trash row, no location row) gets a location
+        # row again while its trash row is still there (`stale`); when that trash row then disappears an emptyTrash has
+        # deleted the records of the re-stored dataset (`victims`).  An id that merely sits in both tables without having
+        # been pending first (e.g. a trash() that copies instead of moving) is NOT attributed to the known finding.
+        victims_prev = set(victims)
         if prev is not None:
-            victims |= {d for d in prev["raw_trash"] if d in prev["raw_loc"] and d not in obs["raw_trash"]}
+            stale |= {d for d in obs["raw_trash"] if d in obs["raw_loc"] and d in prev["raw_trash"] and d not in prev["raw_loc"]}
+            victims |= {d for d in stale if d in prev["raw_trash"] and d in prev["raw_loc"] and d not in obs["raw_trash"]}
+        stale = {d for d in stale if d in obs["raw_trash"] and d in obs["raw_loc"]}
         victims = {d for d in victims if d in obs["raw_loc"]}
 
         # ---- (1) existence reports tell the truth, for every dataset id, at every step
@@ -369,8 +362,20 @@ def check_history(ctx: Ctx, hist, steps, origin):
         run_rows = sorted([r[1], r[0]] for r in flat if colls.get(r[0]) == 1)
         if run_rows != sorted(obs["raw_ds"]):
             fail("run-membership", i, "RUN contents differ from the dataset table")
+        cdef = {c: kids for c, kids in obs["chains"]}
+
+        def leaves(c, seen=()):
+            out = set()
+            for k_ in cdef.get(c, []):
+                if k_ in cdef:
+                    if k_ not in seen:
+                        out |= leaves(k_, seen + (c,))
+                else:
+                    out.add(k_)
+            return out
         for c, kids in obs["chains"]:
-            want = sorted({r[1] for r in flat if r[0] in kids})
+            lv = leaves(c)
+            want = sorted({r[1] for r in flat if r[0] in lv})
             got = sorted({r[1] for r in obs["qd"] if r[0] == c})
             if want != got:
                 fail("chain-view", i, f"query_datasets over chain {c} is not the union of its children", {"want": want, "got": got})
@@ -381,7 +386,8 @@ def check_history(ctx: Ctx, hist, steps, origin):
             if not ok:
                 if _snapshot(prev) != _snapshot(obs):
                     diff = [k for k in obs if k != "probe_errors" and obs[k] != prev.get(k)]
-                    fail("refused-op-changed-state", i, f"{opkind(op)} was refused with {out} but an observable changed", diff)
+                    fail("refused-op-changed-state", i, f"{opkind(op)} was refused with {out} but an observable changed", diff,
+                         d=op[1] if op[0] == "Put" and diff == ["files"] else None)
             k = op[0]
             targets = None
             mode = None
@@ -448,7 +454,8 @@ def check_history(ctx: Ctx, hist, steps, origin):
                     if mode != "regremove" and unstore and not (mode == "removeRuns" and not op[2]):
                         if v["loc"] or v["trash"] or v["recs"] or v["stored"] or v["locations"] or v["exists"][1] or v["exists"][2]:
                             fail("target-still-stored", i, f"after {opkind(op)} the datastore still knows dataset {d}",
-                                 {kk: v[kk] for kk in ("loc", "trash", "recs", "stored", "locations", "exists")})
+                                 {kk: v[kk] for kk in ("loc", "trash", "recs", "stored", "locations", "exists")},
+                                 d=d if (v["trash"] and not (v["loc"] or v["recs"] or v["stored"] or v["locations"] or v["exists"][1] or v["exists"][2])) else None)
                         for r in pv["recs"]:
                             p = [r[1], r[2]]
                             shared = any(q[0] not in targets and [q[1], q[2]] == p for q in obs["raw_recs"])
@@ -574,9 +581,13 @@ def cobs(out, obs):
     calibs = [r for r in obs["assoc"] if len(r) == 4]
     flags = [[d] + obs["exists"][d][:3] for d in range(NDS)]
     located = [[d, obs["locations"][d]] for d in range(NDS)]
-    return "(Obs %d %s %s %s %s %s %s %s %s %s %s %s)" % (
+    many = [[d] + obs["many"][d][:3] for d in range(NDS)]
+    stored_many = [[d, obs["stored_many"][d]] for d in range(NDS)]
+    chainview = [r for r in obs["qd"] if r[0] in chain_ids]
+    return "(Obs %d %s %s %s %s %s %s %s %s %s %s %s %s %s %s)" % (
         code, cll(obs["colls"]), cll(obs["raw_ds"]), cll(members), cll(calibs), cll([[d] for d in obs["raw_loc"]]),
-        cll([[d] for d in obs["raw_trash"]]), cll(obs["raw_recs"]), cll(obs["files"]), cll(flags), cll(located), cll(obs["carried"]))
+        cll([[d] for d in obs["raw_trash"]]), cll(obs["raw_recs"]), cll(obs["files"]), cll(flags), cll(located), cll(obs["carried"]),
+        cll(many), cll(stored_many), cll(chainview))
 
 
 def ccase(hist, steps):
@@ -585,7 +596,8 @@ def ccase(hist, steps):
 
 FIELDS = {1: "outcome", 2: "collections", 3: "dataset table", 4: "collection contents", 5: "calibration rows", 6: "dataset_location",
           7: "dataset_location_trash", 8: "file_datastore_records", 9: "root listing", 10: "Butler.exists flags",
-          11: "getDatasetLocations", 12: "Butler.exists flags of refs carrying records"}
+          11: "getDatasetLocations", 12: "Butler.exists flags of refs carrying records", 13: "Butler._exists_many flags (one call, all ids)",
+          14: "Butler.stored_many (one call, all ids)", 15: "query_datasets over CHAINED collections"}
 
 
 # =================================================================================================
@@ -631,7 +643,8 @@ def run(ctx: Ctx):
         "it contains a successful purge or removeRuns that deleted a stored dataset while another stored dataset survived, a "
         "successful unstore-only or disassociate-only prune that changed something, a step at which some dataset is "
         "RECORDED|DATASTORE without _ARTIFACT (artifact deleted behind the Butler's back) and a refused operation; every step "
-        "of every history probes all 8 dataset ids through 12 interfaces and all collections through 3"
+        "of every history probes all 8 dataset ids through 12 interfaces (single-ref and bulk) and all collections, chains "
+        "included, through 3; the model is compared on 15 fields per step"
     )
     props_ok = ctx.build_props(extra_targets=["Model/RemovalCheck.vo"])
     if not props_ok:
@@ -649,6 +662,8 @@ def run(ctx: Ctx):
         hists, origins, ncorpus = [j["history"]], ["replay"], 1
     else:
         nh, ln = (40, 28) if ctx.quick else (240, 60)
+        if os.environ.get("VERIF_C10_CASES"):
+            nh = int(os.environ["VERIF_C10_CASES"])         # builder / mutation trials only
         for k in range(nh):
             hists.append(gen_history(ctx.rng, ln if k % 4 else ln // 2))
             origins.append(f"seed{ctx.seed}/{k}")
